@@ -44,7 +44,7 @@ import (
 var schedKinds = []string{"none", "moved-between", "moved-mid", "ask", "back-forth", "node-added", refreshMidBuild, connReset, connLost, abandonedWorker, crossNode, movedUnreachable}
 
 // movedUnreachable: a new master joins, takes the victim slots, and cannot be reached from where
-// the tool runs (its listener refuses connections: an announced address that is not routable from
+// the tool runs (it announces 127.0.0.1:1, where connections are refused: an address that is not routable from
 // the tool's host).  The old owners answer MOVED to it.  Whatever the tool does with a redirect
 // it cannot follow, it must not count the command as done.
 const movedUnreachable = "moved-to-unreachable"
@@ -204,7 +204,7 @@ func main() {
 	run.Assume("schedule conn-lost-before-reply (connection fault, edge of the quantifier): a node that already served earlier node batches of this client executes a complete small pipelined node batch (2–8 non-idempotent writes, one TCP segment) and closes the connection without having written a reply; later connections are served normally. Expected: reported connection error, nothing applied twice in transactional mode")
 	run.Assume("schedule abandoned-node-worker (blocking non-transactional sender; connection fault, edge of the quantifier): in one batch spanning two nodes, node X closes the connection on the first request of its share and node Y executes the first command of its share and then stops serving that connection; the reported failure is followed by the tool's restart sequence (bookkeeping, StartPoint, Send from the stored position) without waiting for the double to go idle; Y's stall ends when the restarted run has applied a newer write to Y's key (or, where no restart can happen meanwhile, after 2 s — a fallback that decides nothing); connections are attributed to the run during which they were opened")
 	run.Assume("schedule cross-node-command (non-transactional senders; no topology change): the stream carries one two-key DEL / UNLINK / MSET whose keys are owned by two different nodes; in two of three cases everything before it has been applied when it is handed out and the source is silent behind it for three periods of the sender's slowest ticker. No node can execute it (the double would answer MOVED/CROSSSLOT); a run that ends with a reported error is the tool's documented answer, a run that goes on must not have stored a position behind it")
-	run.Assume("schedule moved-to-unreachable (non-transactional senders; a connection fault at the edge of the quantifier): a new master joins, takes the victim slots and refuses connections from the tool (listener closed: an announced address the tool's host cannot reach); the old owners answer MOVED to it. Expected: a reported error; never an acknowledged batch with a position stored behind a command that no node executed")
+	run.Assume("schedule moved-to-unreachable (non-transactional senders; a connection fault at the edge of the quantifier): a new master joins, takes the victim slots and announces an address at which connections are refused (127.0.0.1:1: an announced address the tool's host cannot reach); the old owners answer MOVED to it. Expected: a reported error; never an acknowledged batch with a position stored behind a command that no node executed")
 	run.Assume("quiescence = the sender stored the stream's end offset as resume position (it consumed every item and flushed its queue) and 4 keep-alive PING batches were served afterwards (at most 3 batches are in flight behind the dispatcher)")
 
 	harness.Parallel(n, 16, func(i int) {
